@@ -227,6 +227,7 @@ var specC06q = vstat.Spec[c06qCase]{
 	Gen:         genC06q,
 	Check:       checkC06q,
 	Inflight:    true,
+	Confirm:     true,
 }
 
 func TestC06Quic(t *testing.T)       { vstat.Check(t, specC06q) }
